@@ -42,6 +42,12 @@ def words_of(lockfile):
             if not held[t]:
                 words[tuple(cur[t])] += 1
                 cur[t] = []
+    # threads that never released (the process was ended by the watchdog): the requests they had
+    # made, closed in LIFO order
+    for t, w in cur.items():
+        if w:
+            w = list(w) + [("rel", l) for l in reversed(held[t])]
+            words[tuple(w)] += 1
     return words
 
 
@@ -93,16 +99,17 @@ def run(tier, seed):
                                 "--watchdog", "30"] + args, timeout=400)
         shutil.rmtree(d, ignore_errors=True)
         return tag, rc, so, se, lockf, args
+    words = collections.Counter()
     try:
         results = v.parallel_map(one, jobs, jobs=8)
     finally:
         shutil.rmtree(shm, ignore_errors=True)
-    words = collections.Counter()
     terminated = 0
     for tag, rc, so, se, lockf, args in results:
         if rc == 3 or rc == -9 or '"hang"' in so:
             p = v.save_replay("c18", tag + ".hang.json", {"args": args, "stdout": so[-600:]})
             viol.append({"what": "workload %s did not terminate: %s" % (tag, so[-200:]), "replay": p, "key": "hang " + tag[:4]})
+            words.update(words_of(lockf))
             continue
         if rc != 0:
             if v.panic_in_code_under_test(se):
@@ -145,7 +152,7 @@ def run(tier, seed):
         "word_frequencies": {" ".join("%s:%s" % x for x in w): c for w, c in words.most_common(20)},
     }
     return {"level": "model_checking", "coverage": cov, "violations": viol,
-            "assumptions": ["lock-ownership spans (hooks) lie inside the real ownership intervals",
+            "assumptions": ["lock requests and releases are logged by the lock types themselves (verif::locks wrappers around parking_lot, tied to the real guards); locks outside the store / write-buffer modules (cache buckets, record value cells, hash bucket guards) are not logged",
                             "channels (bounded worker queues, response channels) are not part of the skeleton; "
                             "their progress is covered by the watchdog on the contention workloads only",
                             "liveness of the real code beyond the explored workloads is not derived"]}
